@@ -319,4 +319,35 @@ theorem moveTo_moveTo (a : Atom) (v w : Vec3 Rat) : Spec.C13.moveTo (Spec.C13.mo
 theorem pos_moveTo (a : Atom) (v : Vec3 Rat) : Spec.C13.pos (Spec.C13.moveTo a v) = v := by cases a; cases v; rfl
 theorem atomId_moveTo (a : Atom) (v : Vec3 Rat) : atomId (Spec.C13.moveTo a v) = atomId a := by cases a; rfl
 
+/-! ### evaluation of concrete runs (non-vacuity examples) -/
+
+instance exceptDecEq {ε β : Type} [DecidableEq ε] [DecidableEq β] : DecidableEq (Except ε β) := fun a b =>
+  match a, b with
+  | .ok x, .ok y => if h : x = y then isTrue (by rw [h]) else isFalse (by intro h'; injection h' with h''; exact h h'')
+  | .error x, .error y => if h : x = y then isTrue (by rw [h]) else isFalse (by intro h'; injection h' with h''; exact h h'')
+  | .ok _, .error _ => isFalse (by intro h; cases h)
+  | .error _, .ok _ => isFalse (by intro h; cases h)
+
+/-- a kernel that answers (with the identity) only when the two centred sets coincide: it is optimal -/
+def idKernel : List V → List V → Except Err (Mat3 Rat) := fun P Q => if P = Q then .ok Mat3.one else .error Err.valueError
+
+theorem resid_self (P : List V) : resid (Mat3.one : Mat3 Rat).mulVec P P = 0 := by
+  induction P with
+  | nil => rfl
+  | cons p P ih =>
+    simp only [resid, ih, Proofs.M3.one_mulVec, add_zero]
+    simp [Vec3.normSq, Vec3.dot, Vec3.sub]
+
+theorem idKernel_optimal : ∀ P Q U, idKernel P Q = .ok U → OptimalRotation U P Q := by
+  intro P Q U h
+  unfold idKernel at h
+  by_cases hPQ : P = Q
+  · simp only [hPQ, if_true] at h
+    injection h with h
+    subst h; subst hPQ
+    refine ⟨Proofs.M3.rot_one, fun R _ => ?_⟩
+    rw [sqResidual_eq_resid, sqResidual_eq_resid, resid_self]
+    exact resid_nonneg _ _ _
+  · simp [hPQ] at h
+
 end Proofs.SupDb
